@@ -6,6 +6,7 @@ import (
 	"encoding/binary"
 	"encoding/json"
 	"fmt"
+	"hash/fnv"
 	"io"
 	"math/rand/v2"
 	"net"
@@ -392,9 +393,23 @@ func c10Lookup(mac string) *dhcpsvc.Lease {
 	return nil
 }
 
-func c10Gen(r *rand.Rand, emit vutil.Emit) {
+func c10Gen(r *rand.Rand, emit0 vutil.Emit) {
 	log.SetOutput(io.Discard)
 	blocks := vutil.N(300)
+	// Every operation line ends with a field "h=<hash of the block so far>",
+	// ignored by the implementation and by the model: two lines are the same
+	// case only if the operation AND the history before it are the same.
+	hist := fnv.New64a()
+	emit := func(fields ...string) {
+		if fields[0] == "C10.reset" {
+			hist.Reset()
+		}
+		_, _ = hist.Write([]byte(strings.Join(fields, "\t")))
+		if fields[0] != "C10.reset" {
+			fields = append(fields, fmt.Sprintf("h=%016x", hist.Sum64()))
+		}
+		emit0(fields...)
+	}
 	mixed := os.Getenv("C10_MIXED_MAC") != ""
 	for b := 0; b < blocks; b++ {
 		// configuration
@@ -521,7 +536,7 @@ func c10Gen(r *rand.Rand, emit vutil.Emit) {
 			}
 			w := r.IntN(100 + wStatic + wRestart + wSleep)
 			switch {
-			case w < 30:
+			case w < 26:
 				emit("C10.discover", vutil.Hex(mac))
 			case w < 65:
 				host := pickHost()
@@ -545,13 +560,13 @@ func c10Gen(r *rand.Rand, emit vutil.Emit) {
 				default: // renew / rebind
 					emit("C10.request", vutil.Hex(mac), "0", vutil.B(r.IntN(10) == 0), "0", c10Utoa(curIP), vutil.Hex(host))
 				}
-			case w < 75:
+			case w < 77:
 				if r.IntN(2) == 0 {
 					emit("C10.decline", vutil.Hex(mac), "1", c10Utoa(curIP), "0")
 				} else {
 					emit("C10.decline", vutil.Hex(mac), "0", "0", c10Utoa(curIP))
 				}
-			case w < 85:
+			case w < 92:
 				if r.IntN(4) == 0 {
 					emit("C10.release", vutil.Hex(mac), "1", c10Utoa(curIP), c10Utoa(pickIP()))
 				} else {
@@ -601,5 +616,4 @@ func TestVerifC10(t *testing.T) {
 	if c10St.dir != "" {
 		_ = os.RemoveAll(c10St.dir)
 	}
-	_ = fmt.Sprint
 }
